@@ -511,3 +511,118 @@ pub fn iter_finish_case(seed: u64, idx: u64) -> CaseOut {
     co.see("iterator_finish_kinds", fin * 4 + walk);
     co
 }
+
+// ------------------------------------------------------------------------------------------------------
+// C01 / C19: several standalone bars, one after the other, on the same terminal
+// ------------------------------------------------------------------------------------------------------
+// The usual shape of a program with phases: a bar runs, prints a few lines, finishes (left on screen or
+// cleared) and is dropped; then the next bar starts on the same terminal. Nothing tells the second bar what
+// the first one left behind - it relies on the cursor having been parked at the right edge of the last row.
+// Oracle: the final screen is exactly the log lines and the final frames (physical rows, blank rows
+// included), in order.
+
+pub fn sequential_bars_case(seed: u64, idx: u64) -> CaseOut {
+    use crate::vscreen::phys_rows;
+    let mut rng = Rng::derive(seed, 1901, idx);
+    let replay = format!("q{seed}:{idx}");
+    let width = rng.range(5, 40) as usize;
+    let n_bars = rng.range(2, 4) as usize;
+    let spy = SpyTerm::new(width as u16, 200, false);
+    spy.state().snap_on_flush = false;
+    let mut expected: Vec<String> = Vec::new();
+    let mut script: Vec<String> = Vec::new();
+    let mut co = CaseOut::held(0, true);
+    let text = |rng: &mut Rng, tag: &str| -> String {
+        let n = match rng.below(4) {
+            0 => rng.usize(4),
+            1 => width.saturating_sub(tag.len() + rng.usize(3)),
+            2 => width + rng.usize(width + 2),
+            _ => rng.usize(width),
+        };
+        format!("{tag}{}", "abcdefghijklmnopqrstuvwxyz".chars().cycle().take(n).collect::<String>())
+    };
+    let frame_rows = |tmpl: &[String], msg: &str| -> Vec<String> {
+        // (a final empty template line produces no row; an empty line anywhere else - also one that comes
+        // out of a message ending in a newline - is a blank row)
+        let tmpl: &[String] = if tmpl.len() > 1 && tmpl.last().map_or(false, |l| l.is_empty()) { &tmpl[..tmpl.len() - 1] } else { tmpl };
+        let rendered = tmpl.join("\n").replace("{msg}", msg);
+        let lines: Vec<&str> = rendered.split('\n').collect();
+        lines.iter().flat_map(|l| if l.is_empty() { vec![String::new()] } else { phys_rows(l, width) }).collect()
+    };
+    let res = catch_unwind(AssertUnwindSafe(|| {
+        for i in 0..n_bars {
+            let n_lines = rng.range(1, 3) as usize;
+            let mut tmpl: Vec<String> = (0..n_lines).map(|j| format!("B{i}L{j} {{msg}}")).collect();
+            match rng.below(5) {
+                0 => tmpl.push(String::new()),          // blank last line
+                1 if n_lines > 1 => tmpl.insert(1, String::new()), // blank line in the middle
+                _ => {}
+            }
+            let tmpl_str = tmpl.join("\n");
+            script.push(format!("bar {i}: template {tmpl_str:?}"));
+            let pb = ProgressBar::with_draw_target(Some(10), ProgressDrawTarget::term_like(spy.boxed())).with_style(ProgressStyle::with_template(&tmpl_str).unwrap());
+            let mut msg = String::new();
+            pb.tick();
+            for _ in 0..rng.range(0, 5) {
+                match rng.below(3) {
+                    0 => {
+                        msg = text(&mut rng, "m");
+                        if rng.chance(1, 5) {
+                            msg.push('\n');
+                        }
+                        pb.set_message(msg.clone());
+                        script.push(format!("  set_message({msg:?})"));
+                    }
+                    1 => {
+                        let t = text(&mut rng, "log");
+                        pb.println(&t);
+                        script.push(format!("  println({t:?})"));
+                        expected.extend(phys_rows(&t, width));
+                    }
+                    _ => pb.inc(1),
+                }
+            }
+            let fin = rng.below(5);
+            script.push(format!("  {}", ["finish", "abandon", "finish_and_clear", "finish_with_message", "drop (AndClear)"][fin as usize]));
+            match fin {
+                0 => pb.finish(),
+                1 => pb.abandon(),
+                2 => pb.finish_and_clear(),
+                3 => {
+                    msg = text(&mut rng, "F");
+                    pb.finish_with_message(msg.clone());
+                }
+                _ => {}
+            }
+            if matches!(fin, 0 | 1 | 3) {
+                expected.extend(frame_rows(&tmpl, &msg));
+            }
+            drop(pb);
+        }
+    }));
+    let w = J::obj().with("terminal_width", width).with("script", J::from(script.clone()));
+    let feats = vec!["sequential-bars".to_string()];
+    co.hash = fnv1a(format!("{width}{script:?}").as_bytes());
+    match res {
+        Err(p) => co.verdict = viol("panic", feats, format!("panicked: {}", crate::world::panic_message(&p)), w, replay),
+        Ok(()) => {
+            let rows = rows_of(&spy);
+            let mut want: Vec<String> = expected.iter().map(|r| r.trim_end().to_string()).collect();
+            while want.last().map_or(false, |r| r.is_empty()) {
+                want.pop();
+            }
+            if rows != want {
+                let first_diff = rows.iter().zip(&want).position(|(a, b)| a != b).unwrap_or(rows.len().min(want.len()));
+                co.verdict = viol(
+                    "residue-row",
+                    feats,
+                    format!("{n_bars} bars one after the other on a {width}-column terminal: the screen differs from the log lines and final frames from row {first_diff} on; screen {:?}, expected {:?}", &rows[first_diff.saturating_sub(1)..rows.len().min(first_diff + 4)], &want[first_diff.saturating_sub(1)..want.len().min(first_diff + 4)]),
+                    w,
+                    replay,
+                );
+            }
+        }
+    }
+    co.count("sequential_bar_histories", 1);
+    co
+}
